@@ -634,7 +634,7 @@ def parse_result(defs, info):
                     hb_ok = False
             if not hb_ok:
                 fail(s, "the version lookup of set_attributes is not the whitelisted try / except")
-            locals_[nm] = 'version("pybads") or None'
+            locals_[nm] = "installed version of 'pybads', None when the package metadata is missing"
             continue
         if isinstance(s, ast.Expr) and isinstance(s.value, ast.Constant) and isinstance(s.value.value, str):
             continue
